@@ -263,6 +263,10 @@ class ElementNode(XmlNode):
             Whether the parsed object can fit in one of class
             parameters or not.
         """
+        if qname is None:
+            # Tail content of a child in non mixed content
+            return False
+
         wrapper = self.pop_wrapper(qname)
         for var in self.meta.find_children(qname):
             if wrapper and var.wrapper_qname != wrapper:
